@@ -16,7 +16,7 @@ func TestC02(t *testing.T) {
 		"2..6 Gets on 1..3 keys, builders failing 35%, backend Read/Write faults injected with probability 0.2 at each backend call-out, "+
 		"SkipRead contexts 1/5, typed (FailoverOf[int], zero = 0) and interface{} (nil = 0) values; builder tokens, seeds and error numbers are "+
 		"unique so that 'belongs to another key' is decidable; non-trivial = more than 2 steps per Get and >= 2 Gets",
-		260, FOpts{MinGets: 2, MaxGets: 6, Keys: 3, FailRate: 0.35, FaultProb: 0.2, Skip: true, Collide: true})
+		260, FOpts{MinGets: 2, MaxGets: 6, Keys: 3, FailRate: 0.35, FaultProb: 0.2, Skip: true, Collide: true, Prelude: true})
 }
 
 // TestC04 runs to quiescence with hostile callers, then forces expiry and asks for every key again.
@@ -79,9 +79,9 @@ func TestC05(t *testing.T) {
 // TestC06 follows TTLs and contexts through every Get path.
 func TestC06(t *testing.T) {
 	e := LoadEnv("C06")
-	cf := NewCaseFile("C06", "From Cache Require Import Base Failover FailoverRun FailoverObs Check.", "check_c06")
+	cf := NewCaseFile("C06", "From Cache Require Import Base Failover FailoverRun FailoverObs Ctx Check.", "check_c06")
 	cf.Rule = steerRule + "1..5 Gets on 1..2 keys; caller contexts without TTL or with a TTL cell in {0, 1h, 1s, -5ns, 1ns}; builders call " +
-		"WithTTL(ctx, x, true) 0..3 times with x in {-5ns, 0, 1ns, 1s, 1h}; SkipRead 1/5; callers cancel their context right after return; " +
+		"WithTTL(ctx, x, true) 0..3 times with x in {-5ns, 0, 1ns, 1s, 1h}; SkipRead 1/5; callers cancel their context right after return, before the call or in the middle of the build, or carry a deadline (1h / 5s); " +
 		"the wrapping backend records TTL(ctx) of every Write, the builder records Err/Done/Deadline/Value of its context at entry and exit; " +
 		"all Get paths arise from the initial entry state (cold miss, sync update, background update, waiter); non-trivial as C01"
 
@@ -94,25 +94,24 @@ func TestC06(t *testing.T) {
 			gi[j] = fmt.Sprintf("(mkGet %s %s %s %s %s)", N(uint64(g.Tid)), cellCoq(g), ZList(g.Plan.Upd), Bool(g.Skip), Bool(g.Plan.Ok))
 		}
 
-		ctxOK := true
+		byTid := map[int]GetSpec{}
+		for _, g := range gets {
+			byTid[g.Tid] = g
+		}
+
+		var ctxs []string
 
 		for _, o := range out.CtxObs {
-			// every builder context: not cancelled at entry; a background one is never cancelled nor
-			// deadlined by the caller and still exposes the caller's values
-			bg := o["bg"].(bool)
-			if o["errAtEntry"] != "<nil>" || !o["valueVisible"].(bool) {
-				ctxOK = false
-			}
-
-			if bg && (o["errAtExit"] != "<nil>" || !o["doneNil"].(bool) || o["deadline"].(bool)) {
-				ctxOK = false
-			}
-
-			cf.Count(fmt.Sprintf("builder_ctx/bg=%v", o["bg"]), 1)
+			// every builder context: the model of Ctx.v predicts Err (entry, exit), Done == nil, Deadline and the
+			// visibility of the caller's value from the caller's context, the cancellations so far and the clock;
+			// the property: a background one is never cancelled nor deadlined and still exposes the caller's values
+			tid := o["tid"].(int)
+			ctxs = append(ctxs, CtxObsCoq(o, byTid[tid], out.Deadlines[tid]))
+			cf.Count(fmt.Sprintf("builder_ctx/bg=%v/cancelledAtEntry=%v/errAtExit=%v", o["bg"], o["cancelledAtEntry"], o["errAtExit"]), 1)
 		}
 
 		out.Replay["builderContexts"] = out.CtxObs
-		cf.Add(fmt.Sprintf("C06Case (%s) %s %s", out.Term, List(gi), Bool(ctxOK)), out.Tag, out.Replay, out.Nontriv)
+		cf.Add(fmt.Sprintf("C06Case (%s) %s %s", out.Term, List(gi), List(ctxs)), out.Tag, out.Replay, out.Nontriv)
 	}
 
 	if err := cf.Write(e); err != nil {
